@@ -58,6 +58,49 @@ theorem sim_fresh {cfg : Cfg} {a : A} {s : State} (hs : Sim cfg a s) (u : Nat) (
     omega
 
 
+/-! ## `checkInfos` through the simulation -/
+
+/-- `checkInfos` passes when every CLIENT_INFO frame among the events describes a module as the table of `base` has it
+    (`InfoTo`), and the entries of `X` match the table of `base` (connections in `E` excepted — those are not connected
+    in `X`) -/
+theorem checkInfos_core {cfg : Cfg} {X : A} {base s0 s2 : State} {E : Nat → Prop}
+    (hi : InfoTo base E s0 s2) (evs : List Ev) (he : s2.out = s0.out ++ evs)
+    (h2 : ∀ v m am, base.find v = some m → X.get v = some am → am.connected = true → SimMod cfg am m)
+    (hE : ∀ v am, E v → X.get v = some am → am.connected = false) :
+    Spec.checkInfos X evs = X := by
+  apply Spec.checkInfos_ok
+  intro p hp v pid mid lg uq nm hb am hget hconn
+  have hin : (p.1, p.2.2) ∈ dataSends isInfo evs := by
+    rw [← sends_filter_map]
+    exact List.mem_map.mpr ⟨p, List.mem_filter.mpr ⟨hp, by simp [hb, isInfo]⟩, rfl⟩
+  rcases hi.2 evs he (p.1, p.2.2) hin v pid mid lg uq nm hb with h | ⟨m, hm, hbody⟩
+  · rw [hE v am h hget] at hconn; cases hconn
+  · have hsm := h2 v m am hm hget hconn
+    have hb' : infoBody m = Body.info v pid mid lg uq nm := by rw [hbody]; exact hb
+    unfold infoBody at hb'
+    simp only [Body.info.injEq] at hb'
+    obtain ⟨_, h2', h3, h4, h5, h6⟩ := hb'
+    exact ⟨by rw [← h3, hsm.modId], by rw [← h4, hsm.isLogger], by rw [← h5, hsm.unique], by rw [← h6, hsm.name],
+      by rw [← h2', hsm.pid]⟩
+
+/-- **`checkInfos` passes.**  `a` simulates `base`; every CLIENT_INFO frame among the events describes a module as the
+table of `base` has it (`InfoTo`), frames about connections in `E` excepted — and those are not connected in `a`. -/
+theorem checkInfos_pass {cfg : Cfg} {a X : A} {base s0 s2 : State} {E : Nat → Prop} (hs : Sim cfg a base)
+    (hi : InfoTo base E s0 s2) (evs : List Ev) (he : s2.out = s0.out ++ evs)
+    (hE : ∀ v am, E v → a.get v = some am → am.connected = false) (hX : X.mods = a.mods) :
+    Spec.checkInfos X evs = X := by
+  have hget : ∀ v, X.get v = a.get v := fun v => by unfold Spec.A.get; rw [hX]
+  refine checkInfos_core (cfg := cfg) hi evs he (fun v m am hm hg _ => ?_)
+    (fun v am hv hg => hE v am hv (by rw [← hget]; exact hg))
+  rw [hget] at hg
+  have hv0 : v ≠ 0 := by rw [← Spec.get_uid hg]; exact uid_pos hs.uids (Spec.get_mem hg)
+  obtain ⟨am', ham'⟩ := Option.isSome_iff_exists.mp ((hs.live v hv0).mpr (by simp [hm]))
+  have : am' = am := by
+    have := (Spec.live_some.mp ham').1
+    rw [hg] at this; cases this; rfl
+  subst this
+  exact hs.mods v am' m ham' hm
+
 /-! ## `checkAcks` through a simulation at the state where `send_ack` runs -/
 
 /-- `x`: the abstract state `checkAcks` is evaluated on; `b`: an abstract state that simulates the model state `sL` in
